@@ -12,16 +12,20 @@ CONSTANTS NArr,        \* number of sub-arrays
           MergeOps,    \* subset of {"update", "extend", "iadd", "add"}
           Configs,     \* set of [r, expl] (see ConfigsUniform / ConfigsAll below)
           Positions    \* TRUE: insert at every index; FALSE: append only
-VARIABLES arr, alive, nxt, cfg, failed
-vars == <<arr, alive, nxt, cfg, failed>>
+VARIABLES arr, alive, nxt, cfg, failed,
+          q            \* arrays whose summaries (consensus, supports, length summaries, scores) have been asked for:
+                       \* from then on they are asked for again after every call on that array (query / add / query)
+vars == <<arr, alive, nxt, cfg, failed, q>>
 
 \* catalogue: two topologies on four taxa, three length patterns / weights.
 \* unrooted (and rooting-less) trees have a trifurcating seed, rooted ones a bifurcating seed.
 ParU == <<0, 1, 1, 1, 4, 4>>          \* (a, b, (c, d))
 ParR == <<0, 1, 2, 2, 1, 5, 5>>       \* ((a, b), (c, d))
 TaxaOf(id) == IF id = 2 THEN <<1, 3, 2, 4>> ELSE <<1, 2, 3, 4>>
-LensU(id) == CASE id = 1 -> <<-1, 4, 4, 4, 4, 4>> [] id = 2 -> <<-1, 4, 8, 8, 4, 4>> [] OTHER -> <<-1, 8, 4, 12, 4, 4>>
-LensR(id) == CASE id = 1 -> <<-1, 4, 4, 4, 4, 4, 4>> [] id = 2 -> <<-1, 8, 4, 4, 8, 4, 4>> [] OTHER -> <<-1, 12, 4, 4, 12, 4, 4>>
+\* the leaf edge of taxon 1 has three distinct lengths (1, 3, 2 in sample order): its median is the middle VALUE,
+\* which is not the value that arrives second
+LensU(id) == CASE id = 1 -> <<-1, 4, 4, 4, 4, 4>> [] id = 2 -> <<-1, 12, 8, 8, 4, 4>> [] OTHER -> <<-1, 8, 4, 12, 4, 4>>
+LensR(id) == CASE id = 1 -> <<-1, 4, 4, 4, 4, 4, 4>> [] id = 2 -> <<-1, 8, 12, 4, 8, 4, 4>> [] OTHER -> <<-1, 12, 8, 4, 12, 4, 4>>
 \* weights 1 (none given), 2, 1 (given): in the sample <<1, 2, 3>> the two topologies tie at exactly half of the weight,
 \* so that a consensus has to break a tie between incompatible splits
 WeightOf(id) == IF id = 2 THEN 4 ELSE IF id = 3 THEN 2 ELSE -1
@@ -50,11 +54,11 @@ ConfigsSome == ConfigsUniform \cup {[r |-> r, expl |-> [k \in Arrs |-> (k = 1) =
 ConfigsImplicitUnrooted == {[r |-> 0, expl |-> Uniform(FALSE)]}
 Init == /\ cfg \in Configs
         /\ arr = [k \in Arrs |-> NewArray(IF cfg.expl[k] THEN cfg.r ELSE -1, DefaultSet)]
-        /\ alive = Arrs /\ nxt = 1 /\ failed = FALSE
+        /\ alive = Arrs /\ nxt = 1 /\ failed = FALSE /\ q = {}
 
 \* Arrays in identical states are interchangeable (renaming them gives an isomorphic behaviour): only the
 \* lowest-numbered one of each class is used as target, and as source the lowest one different from the target.
-SameAs(k) == {j \in alive : arr[j] = arr[k]}
+SameAs(k) == {j \in alive : arr[j] = arr[k] /\ (j \in q) = (k \in q)}
 CanonT(k) == k = Min(SameAs(k))
 CanonS(k, j) == j = Min(SameAs(j) \ {k})
 AddTree(k, i) ==
@@ -62,25 +66,32 @@ AddTree(k, i) ==
     /\ LET r == OpAddTree(arr[k], Sample[nxt], i, D) IN
          /\ arr' = [arr EXCEPT ![k] = r.st]
          /\ failed' = (failed \/ r.raised # "")
-    /\ nxt' = nxt + 1 /\ UNCHANGED <<alive, cfg>>
+    /\ nxt' = nxt + 1 /\ UNCHANGED <<alive, cfg, q>>
 Merge(op, k, j) ==
     /\ k \in alive /\ j \in alive /\ k # j /\ CanonT(k) /\ CanonS(k, j)
     /\ LET r == OpMerge(op, arr[k], arr[j], Shipped) IN
          /\ arr' = [arr EXCEPT ![k] = r.st]
          /\ failed' = (failed \/ r.raised # "")
     /\ alive' = alive \ {j} /\ UNCHANGED <<nxt, cfg>>
+    /\ q' = IF op = "add" THEN q \ {k, j} ELSE q \ {j}         \* a + b is a new object: nothing cached yet
+\* the first time the summaries of a non-empty array are asked for; the state of the array does not change
+Query(k) == /\ k \in alive /\ CanonT(k) /\ ~IsEmpty(arr[k]) /\ q = {}          \* one queried array at a time bounds the model
+            /\ q' = q \cup {k} /\ UNCHANGED <<arr, alive, nxt, cfg, failed>>
 Next == \/ \E k \in Arrs, i \in 0..N : AddTree(k, i)
         \/ \E op \in MergeOps, k \in Arrs, j \in Arrs : Merge(op, k, j)
+        \/ \E k \in Arrs : Query(k)
 Spec == Init /\ [][Next]_vars
 \* one-state specification whose dump hands the catalogue to the harness, which builds exactly these trees
 CatSpec == /\ cfg = [r |-> 0, expl |-> Uniform(FALSE), sample |-> Sample,
                      graphs |-> [r \in {-1, 0, 1} |-> [id \in 1..3 |-> Graph(id, r)]], w |-> [id \in 1..3 |-> WeightOf(id)]]
-           /\ arr = <<>> /\ alive = {} /\ nxt = 1 /\ failed = FALSE
+           /\ arr = <<>> /\ alive = {} /\ nxt = 1 /\ failed = FALSE /\ q = {}
            /\ [][FALSE]_vars
 
-\* ---- the property (every array that is still in use, in every reachable state)
-PerTreeListsAligned == \A k \in alive : Aligned(arr[k], D)
-SummaryOfBagOnly == \A k \in alive : SummaryDependsOnBagOnly(arr[k], D)
+\* ---- the property: every array in every reachable state - the operands of earlier merges included, which a
+\*      merge must leave as they were
+PerTreeListsAligned == \A k \in Arrs : Aligned(arr[k], D)
+SummaryOfBagOnly == \A k \in Arrs : SummaryDependsOnBagOnly(arr[k], D)
+OperandsUnchanged == [][\A op \in MergeOps, k \in Arrs, j \in Arrs : Merge(op, k, j) => arr'[j] = arr[j]]_vars
 NoMergeFailure == ~failed                       \* all arrays of a run are compatible (uniform rooting, same settings)
 PerTreeQueriesEnabled == \A k \in alive : QueriesEnabled(arr[k])
 RootingKept == \A k \in alive : RootingConsistent(arr[k], D)
